@@ -445,6 +445,87 @@ def compile_pipeline(repo, res):
             res.fail(key, f"without names / namespace the IR stage receives {irc[0][2:] if irc else None}, expected ({{}}, '', options, False)", loc)
     except Raised as e:
         res.fail(key, f"compile_ufl_objects raises ({e.what}) without object names and namespace", loc)
+    # names are registered under the identity of the objects the caller listed: whatever compile_ufl_objects hands to the analysis
+    # (the objects themselves, or - for part="diagonal" - forms derived from them) must be found under its own identity in the names
+    # the IR stage receives, with the name of the object it stands for
+    key = f"{f.key}:names-follow-the-objects"
+    res.ob(key)
+
+    class Arg(PyNative):
+        def __init__(self, n):
+            self.n = n
+
+        def number(self):
+            return self.n
+
+    class Form(PyNative):
+        def __init__(self, name, numbers, blocks=None):
+            self.name, self.numbers, self.blocks = name, numbers, blocks
+
+        def arguments(self):
+            return [Arg(n) for n in self.numbers]
+
+        def __repr__(self):
+            return self.name
+
+        def __add__(self, o):
+            return Form(f"({self.name}+{o.name})", self.numbers)
+
+        __radd__ = __add__
+
+        def __eq__(self, o):
+            return self is o
+
+        def __hash__(self):
+            return id(self)
+
+    class Zero(Form):
+        def __init__(self):
+            super().__init__("0", [0, 1])
+
+        def __add__(self, o):
+            return Form(f"diag:{o.name}", o.numbers)
+
+        def __eq__(self, o):
+            return (isinstance(o, int) and o == 0) or self is o
+
+        def __hash__(self):
+            return 0
+    for part in ("full", "diagonal"):
+        a_ = Form("a", [0, 1], [[Form("a00", [0, 1]), Form("a01", [0, 1])], [Form("a10", [0, 1]), Form("a11", [0, 1])]])
+        L_ = Form("L", [0], [[Form("L0", [0])]])
+        it = Interp(repo, load_classes(repo), primary=CM)
+        log = []
+        it.overrides["time"] = _PyCall(lambda: 0.0)
+        it.overrides["_print_timing"] = _PyCall(lambda *a: None)
+        it.overrides["logger"] = Node("Logger", info=_PyCall(lambda *a: None), debug=_PyCall(lambda *a: None))
+        it.overrides["analyze_ufl_objects"] = _PyCall(lambda objs, st: log.append(("analysis", list(objs))) or "ANALYSIS")
+        it.overrides["compute_ir"] = _PyCall(lambda an, on, ns, opts, vis=False: log.append(("ir", dict(on))) or "IR")
+        it.overrides["generate_code"] = _PyCall(lambda ir, opts: ("CODE", (".h", ".c")))
+        it.overrides["format_code"] = _PyCall(lambda code: ["H", "C"])
+        it.overrides["id"] = _PyCall(lambda o: id(o))
+        for nm_ in ("ufl.Form", "ufl.form.Form"):
+            it.overrides[nm_] = Form
+        it.overrides["ufl.ZeroBaseForm"] = _PyCall(lambda args=(): Zero())
+        it.overrides["ufl.extract_blocks"] = _PyCall(lambda form, *a_, **k_: [list(r) for r in form.blocks])
+        import re as _re2
+        it.overrides["re.fullmatch"] = _PyCall(lambda pat, s_, *a: _re2.fullmatch(pat, s_))
+        names = {id(a_): "a", id(L_): "L"}
+        try:
+            it.call_f(f, [[a_, L_], {"scalar_type": "float64", "part": part}], {"object_names": dict(names), "namespace": "ns"})
+        except Raised as e:
+            res.fail(key, f"compile_ufl_objects raises ({e.what}) on [a, L] with part={part!r}", loc)
+            continue
+        analysed = next((e[1] for e in log if e[0] == "analysis"), None)
+        on = next((e[1] for e in log if e[0] == "ir"), None)
+        if not isinstance(analysed, list) or len(analysed) != 2 or on is None:
+            res.fail(key, f"with part={part!r} the analysis receives {analysed} and the IR stage the names {on}", loc)
+            continue
+        got = [on.get(id(o)) for o in analysed]
+        if got != ["a", "L"]:
+            res.fail(key, f"with part={part!r} the objects handed to the analysis are {analysed} and the names the IR stage looks them up in give {got} for them, the caller "
+                     "named them ['a', 'L']: names are found by object identity, so a form replaced before the analysis loses its name and its alias "
+                     "form_<prefix>_<name> is never emitted", loc, props=("C20",))
     for ns in ("a-b", "my ns", "x.y", "ns;"):
         key = f"{f.key}:namespace-rejected:{ns}"
         res.ob(key)
